@@ -187,6 +187,9 @@ def check(cx):
                       'matches): %s' % (m,), loc=bfn, found=show(bv))
 
     # ---- refusal numerics (R7.2)
+    r1b.instance('the matcher behind +b / +e / +I (imported)')
+    depends(cx, r1b, 'C14', ('R14.5', 'R14.2'), 'the matcher behind +b / +e / +I compares characters and terminates',
+            only=r'^(match_wildcard|starts_single_wilcards)\|')
     r2 = cx.rule('R7.2', 'refusal stage -> numeric', floor=5, kind='emission')
     reps = replies(w)
     for variant, cond in stages.items():
